@@ -33,6 +33,7 @@ def run(ctx):
     P = 'C19'
     r_alloc(ctx, P)
     no_allocation_by_a_ceiling(ctx, P)
+    option_setters_keep_the_other_settings(ctx, P)
     r_quad(ctx, P)
     r_rescan(ctx, P)
     discarded_buffers(ctx, P)
@@ -564,3 +565,25 @@ def no_allocation_by_a_ceiling(ctx, P):
                   not bad, function=callee, site=site(b, bad[0]) if bad else None,
                   missing=None if not bad else 'the allocation at %s is sized by the parameter that carries the ceiling: every call buffers the whole limit (1 GiB by default) whatever the input is' % site(b, bad[0]))
     ctx.floor(P + ':S19-1:ceiling-params:floor', 'helper parameters that receive a configured ceiling', n, 1)
+
+
+def option_setters_keep_the_other_settings(ctx, P):
+    """The SEIPDv1 buffering ceiling is part of `DecryptionOptions` (`seipdv1_read_mode`): "capped by its configured limit" holds only
+    if a limit that was configured stays configured.  The by-value setters of the options types (`enable_legacy`, `enable_gnupg_aead`,
+    `set_seipdv1_read_mode`, ..) return the options they were given with one field changed: the value they return never takes
+    fields from a fresh `new()` / `default()` (which would silently reset the read mode and its ceiling to 1 GiB)."""
+    n = 0
+    for p, r in sorted(ctx.f.bodies.items()):
+        if '::tests::' in p or r['kind'] != 'AssocFn' or r['nargs'] < 1 or r.get('derived'):
+            continue
+        t0, t1 = r['locals'][0]['ty'] or '', r['locals'][1]['ty'] or ''
+        if t0 != t1 or not re.search(r'Options$', t0):
+            continue
+        b = ctx.wrap(r)
+        n += 1
+        og = b.operand_origins({'l': 0, 'pr': []})
+        fresh = sorted(x for x in og if re.search(r'^call:.*::(new|default)$', x) and t0.split('::')[-1] in x or x.endswith('Default::default'))
+        ctx.check('%s:S19-3:option-setter-keeps-settings:%s' % (P, p), 'origin', '%s returns the options it was given (one field changed), not a fresh default' % '::'.join(p.split('::')[-2:]),
+                  has_origin(og, r'^param:1$') and not fresh, function=p,
+                  missing=None if not fresh else 'the returned options take fields from %s: settings made before this call (the SEIPDv1 read mode and its ceiling) are reset' % fresh[:2])
+    ctx.floor(P + ':S19-3:option-setters:floor', 'by-value setters of options types', n, 3)
